@@ -29,7 +29,14 @@ TECHNIQUE = (
     "(zstd frame completeness + PenlogReader; once as the file is after the process ended and once as the copy the child took the "
     "moment entry_point() returned or raised, before the interpreter's own logging.shutdown() could close anything), flock state "
     "and the environment dumped by the hook scripts, and compares them with the documented mapping. UDS scanner runs get an OEM-style "
-    "ECU class (gallia.command.uds.load_ecu replaced in the child) whose properties() sends ReadDataByIdentifier requests"
+    "ECU class (gallia.command.uds.load_ecu replaced in the child) whose properties() sends ReadDataByIdentifier requests. The harness "
+    "command logs one numbered record at every lifecycle point through gallia's logger and notes each text once the logging call has "
+    "returned; every noted text must be found, in order, in log.json.zst. Further run families: the command disconnects its DBHandler "
+    "and connects it again during the run (with another sqlite3 writer using the file in between); the command logs one record of a "
+    "text class (controls, Latin-1, BMP, astral, JSON/format metacharacters, long, and strings with lone surrogates as "
+    "os.fsdecode()/surrogateescape produce them for undecodable bytes); the shipped `gallia discover doip` command run through "
+    "gallia.cli.gallia.main() with --db/--artifacts-base/--lock-file against 127.0.0.1:1 (no listener: the discovery ends by itself with the "
+    "command's own sys.exit), judged by the same artefact oracle plus the discovery_run row the discoverer writes during the run"
 )
 LEVEL_TEXT = (
     "Fault enumeration: command kind x exit kind x lifecycle point is enumerated completely in both tiers (3 x (1 + 9 x 5) = "
@@ -38,7 +45,12 @@ LEVEL_TEXT = (
     "failing pre- or post-hook until every pair with a failing hook is covered (about 166 runs), plus 6 runs (thorough: 48) on a "
     "shared database whose write lock a second writer (the harness, stdlib sqlite3, BEGIN IMMEDIATE) holds for 2.5-4 s from "
     "right before the command finishes, plus 6 runs (thorough: 32) of the UDS scanner whose ECU answers in setup and main and fails "
-    "only for the properties read of UDSScanner.teardown (ECU silent / ECU closes the connection). Thorough: every combination "
+    "only for the properties read of UDSScanner.teardown (ECU silent / ECU closes the connection), plus 9 runs (command kind x cycle point "
+    "in {setup, main, teardown}; thorough: x every ending at or after the cycle point, 252) in which the command disconnects and "
+    "re-connects its database handler once or twice, plus 10 runs (thorough: 150 = class x kind x lifecycle point) in which the command "
+    "logs one record of each of 10 text classes (4 of them with lone surrogates) before it logs further records and ends, plus 4 runs (thorough: 32 = "
+    "target form x 8 resource settings) of the shipped DoIP discoverer through the real CLI (target given as host:port, with src_addr, with src_addr and "
+    "activation_type, with a foreign scheme). Thorough: every combination "
     "x all 8 resource settings x 5 hook pairs (a rotating diagonal of the non-failing 3x3 hook square, one failing pre-hook, "
     "one failing post-hook; 5520 runs; VERIF_C15_FULL=1 runs all 25 hook pairs). One fault per run; held means held for the "
     "runs executed. A child that exceeds the watchdog is re-run; it is a finding only if it hangs again and the thread stacks "
@@ -60,6 +72,11 @@ RULE = (
     "and a second writer holding the database's write lock while the command finishes; a third family is (UDS scanner) x (point "
     "'teardown_props': the request that ecu.properties() sends inside UDSScanner.teardown) x (fault in {ECU silent from the start of "
     "teardown on, ECU closes the connection at the first request of teardown}) x (request timeout, retries) x resources x non-failing hooks; "
+    "a fourth family is (kind) x (lifecycle point in {setup_post, main, teardown_pre} at which the command calls db_handler.disconnect() and "
+    "db_handler.connect() again, 1-2 times, pause 0-50 ms, optionally a foreign sqlite3 writer inserting a row in between) x (ending at or after "
+    "that point), database on; a fifth family is (text class of one logged message, 10 classes) x (kind) x (lifecycle point at which it is logged) "
+    "x (ending at or after that point), artifacts dir on; a sixth family is (`gallia discover doip` through the CLI main) x (target form in {host:port, "
+    "+src_addr, +src_addr+activation_type, foreign scheme}) x resources, peer 127.0.0.1:1 not listening; "
     "non-trivial = anything but a fault-free run without hooks and "
     "resources; distinct = distinct case tuples"
 )
@@ -75,6 +92,16 @@ ASSUMPTIONS = [
     "exit code 74 (judged only if the virtual ECU really saw a ReadDataByIdentifier request after it was told to fail)",
     "one fault per run; database-open failures are not injected; dumpcap is disabled",
     "config equality is decided on the JSON dump of the re-created CONFIG_TYPE (TargetURI has no __eq__)",
+    "a command may hand the database to somebody else for a while: db_handler.disconnect() followed later by db_handler.connect() (what gallia's own "
+    "DoIP discoverer does around its writes) is legitimate use; only runs whose handler is connected again when the command ends are generated "
+    "(a handler the command itself left disconnected is not exercised), and at least 5 ms pass between connect() and the next use of the handler",
+    "'fully readable' includes: every record handed to gallia's logger before run() ended is in the log file, in order; the harness only demands its "
+    "own records (logger gallia.verif.c15), compared by exact text. A message that is not a sequence of Unicode scalar values (lone surrogates) "
+    "is not itself looked for (DESIGN 3a, C17: not text); the records logged before and after it are",
+    "`gallia discover doip` runs offline: 127.0.0.1:1 answers no UDP request and refuses TCP connects, so the command ends by its own sys.exit(n) within "
+    "seconds; which n is the command's business, the oracle only demands that process status, META.json and run_meta agree on it, that run_meta has "
+    "its end time, that the discovery_run row exists once the command got past its target check, that the log is closed and readable when CLI main ends, "
+    "and that the lock is free; SystemExit out of CLI main is caught in the child only to copy the log file before the interpreter's atexit hooks run",
     "the database may be shared with other writers: a write lock held by somebody else for up to 6 s (the handler's busy timeout is 10 s) "
     "must not cost the run its end time / exit code; a contended run is judged as such only if the measured lock time was 1.5..6 s, "
     "and not judged at all if the harness held the lock longer",
@@ -116,6 +143,42 @@ TDPROPS_POINT = "teardown_props"
 TDPROPS_EXITS = ["ecusilent", "ecureset"]  # the ECU stops answering / closes the connection at the next request
 TDPROPS_COND = "teardown-properties-error"
 PROPS_DIDS = [0xF186, 0xF190]  # what the harness ECU class reads in properties()
+# ---- "the command gives the database away and takes it back" family (spec["dbcycle"]): at one lifecycle point the command
+# disconnects its DBHandler and connects it again (1-2 times, optionally with a pause and with somebody else writing to the
+# file in between) - the connect/disconnect cycle gallia's own DoIP discoverer performs. The handler is connected when the run ends.
+DBCYCLE_POINTS = ["setup_post", "main", "teardown_pre"]
+DBCYCLE_WHERE = "db-reconnected-by-command"
+# ---- "the command logs text as Python hands it out" family (spec["logtext"]): one record whose message is of a text class
+# (file names with undecodable bytes come back from os.fsdecode()/os.listdir() with lone surrogates, ECU data may hold anything)
+# logged at one lifecycle point at or before the fault. What the log file does with a string that is not a sequence of Unicode
+# scalar values is not judged (DESIGN 3a, C17); that every *other* record logged before the run ended is in the file is.
+TEXT_CLASSES: dict[str, str] = {
+    "ascii-controls": "ctl \x00\x07\x1b[31m\t\r\n \x7f end",
+    "latin1": "Steuerger\xe4t gr\xf6\xdfer \xb15 % \xff",
+    "bmp": "\u8a3a\u65ad \u30bb\u30c3\u30b7\u30e7\u30f3 \u03a9 \u2264 \u221e \u2028 \ufeff \ufffd end",
+    "astral": "car \U0001f697 \U0001f600 \U00010348 \U0010ffff end",
+    "json-meta": '{"data": "</7>\\", "x": [1, 2]} <3>{"a" %s %d {0} \\u00e4 \\',
+    "long": "0123456789abcdef\xe9\u20ac" * 1200,
+    "undecodable-bytes-surrogateescape": b"dump-\xff\xfe-\xc3.bin".decode("utf-8", "surrogateescape"),
+    "lone-high-surrogate": "id \ud83d end",
+    "surrogate-pair-as-two-code-points": "smile \ud83d\ude00 end",
+    "lone-low-surrogate-last": "tail \udc80",
+}
+# ---- "a shipped command through the real CLI" family (spec["cli"]): `gallia discover doip --target ...` driven through
+# gallia.cli.gallia.main() against 127.0.0.1:1 (nothing listens there: UDP requests stay unanswered, TCP connects are refused), so
+# the run ends by itself within a few seconds with the command's own sys.exit(n). The discoverer writes to the database during
+# its run; the same artefact oracle applies (exit status == META.json == run_meta, end time, log closed and readable, lock free).
+CLI_KIND = "discover-doip"
+CLI_COMMAND = "gallia.commands.discover.doip.DoIPDiscoverer"
+CLI_DEAD_PEER = "127.0.0.1:1"
+CLI_TARGETS: dict[str, str | None] = {
+    "host-port": f"doip://{CLI_DEAD_PEER}",
+    "host-port-src_addr-activation_type": f"doip://{CLI_DEAD_PEER}?src_addr=0x0e00&activation_type=0x00",
+    "host-port-src_addr": f"doip://{CLI_DEAD_PEER}?src_addr=0x0e80",
+    "foreign-scheme": f"tcp-lines://{CLI_DEAD_PEER}",  # refused by the command itself before it touches the database tables
+}
+TEXT_SURROGATE = [c for c, t in TEXT_CLASSES.items() if any(0xD800 <= ord(ch) <= 0xDFFF for ch in t)]
+LOGGER_NAME = "gallia.verif.c15"
 # set by the fault injector (main thread), read by the virtual ECU (its own thread): "answer" | "silent" | "reset"
 ECU_CTL: dict[str, str] = {"mode": "answer"}
 
@@ -307,6 +370,80 @@ def gen_tdprops(tier: str, seed: int, first_id: int) -> list[dict[str, Any]]:
     return rows
 
 
+def _ends_from(point: str) -> list[tuple[str, str]]:
+    """(exit kind, fault point) pairs whose fault comes at or after lifecycle point `point` (a fault-free run comes after all)"""
+    first = POINTS.index(point)
+    return [("return", "none")] + [(e, p) for e in EXITS[1:] for p in POINTS[first:]]
+
+
+def gen_dbcycle(tier: str, seed: int, first_id: int) -> list[dict[str, Any]]:
+    """Runs in which the command disconnects its DBHandler and connects it again at one lifecycle point (setup after
+    super().setup(), main, teardown before super().teardown()) and then ends in any way at or after that point. Quick: command
+    kind x cycle point (9 runs), endings rotating through the exit kinds; thorough: kind x cycle point x every later ending.
+    Database always on, hooks never failing."""
+    import random
+
+    rng = random.Random(f"C15/dbcycle/{tier}/{seed}")
+    combos: list[tuple[str, str, str, str]] = []
+    if tier == "quick":
+        exits = EXITS[:]
+        rng.shuffle(exits)
+        i = 0
+        for k in KINDS:
+            for cyc in DBCYCLE_POINTS:
+                e = exits[i % len(exits)]
+                i += 1
+                p = "none" if e == "return" else rng.choice(POINTS[POINTS.index(cyc):])
+                combos.append((k, cyc, e, p))
+    else:
+        combos = [(k, cyc, e, p) for k in KINDS for cyc in DBCYCLE_POINTS for e, p in _ends_from(cyc)]
+    rows = []
+    for i, (k, cyc, e, p) in enumerate(combos):
+        rows.append({"kind": k, "exit": e, "point": p, "pre": rng.choice(["none", "ok"]), "post": rng.choice(["none", "ok", "noisy"]),
+                     "art": rng.random() < 0.6, "db": True, "lock": rng.random() < 0.4,
+                     "dbcycle": {"at": cyc, "n": 1 + (i + seed) % 2, "gap": rng.choice([0.0, 0.01, 0.05]), "other_writes": (i + seed) % 3 != 0},
+                     "id": first_id + i})
+    return rows
+
+
+def gen_logtext(tier: str, seed: int, first_id: int) -> list[dict[str, Any]]:
+    """Runs in which the command logs one record of a text class (TEXT_CLASSES) at one lifecycle point and then ends in any way at
+    or after that point. Quick: every text class once (kind, point and ending rotate); thorough: class x kind x point.
+    Artifacts dir always on, hooks never failing."""
+    import random
+
+    rng = random.Random(f"C15/logtext/{tier}/{seed}")
+    classes = list(TEXT_CLASSES)
+    combos: list[tuple[str, str, str]] = []
+    if tier == "quick":
+        for i, c in enumerate(classes):
+            combos.append((c, KINDS[(i + seed) % 3], POINTS[(i * 2 + seed) % len(POINTS)]))
+    else:
+        combos = [(c, k, at) for c in classes for k in KINDS for at in POINTS]
+    rows = []
+    for i, (c, k, at) in enumerate(combos):
+        e, p = rng.choice(_ends_from(at)) if rng.random() < 0.85 else ("return", "none")
+        rows.append({"kind": k, "exit": e, "point": p, "pre": rng.choice(["none", "ok"]), "post": rng.choice(["none", "ok", "noisy"]),
+                     "art": True, "db": rng.random() < 0.5, "lock": rng.random() < 0.3, "logtext": {"at": at, "class": c}, "id": first_id + i})
+    return rows
+
+
+def gen_cli(tier: str, seed: int, first_id: int) -> list[dict[str, Any]]:
+    """`gallia discover doip` through the real CLI main. Quick: the four target forms once each (database on in all, artifacts
+    dir on in three, lock file on in two, rotating with the seed); thorough: target form x all 8 resource settings."""
+    import itertools
+
+    forms = list(CLI_TARGETS)
+    if tier == "quick":
+        res = [(True, True, True), (False, True, False), (True, True, False), (True, True, True)]
+        res = res[seed % 4:] + res[:seed % 4]
+        combos = list(zip(forms, res))
+    else:
+        combos = [(f, r) for f in forms for r in itertools.product([False, True], repeat=3)]
+    return [{"kind": CLI_KIND, "exit": "cli", "point": "none", "pre": "none", "post": "none", "art": art, "db": db, "lock": lock,
+             "cli": {"target": f}, "id": first_id + i} for i, (f, (art, db, lock)) in enumerate(combos)]
+
+
 def shards(tier: str, seed: int) -> list[dict[str, Any]]:
     n = 16
     cases = gen_cases(tier, seed)
@@ -319,8 +456,19 @@ def shards(tier: str, seed: int) -> list[dict[str, Any]]:
     for j, c in enumerate(contend):
         out[(j * 5 + seed) % n]["cases"].insert(0, c)
     # so do the runs whose ECU falls silent in teardown (one request timeout each, times the retries)
-    for j, c in enumerate(gen_tdprops(tier, seed, len(cases) + len(contend))):
+    tdp = gen_tdprops(tier, seed, len(cases) + len(contend))
+    for j, c in enumerate(tdp):
         out[(j * 5 + seed + 2) % n]["cases"].insert(0, c)
+    # the command reconnects its database handler during the run / logs text of every class
+    dbc = gen_dbcycle(tier, seed, len(cases) + len(contend) + len(tdp))
+    for j, c in enumerate(dbc):
+        out[(j * 7 + seed + 4) % n]["cases"].append(c)
+    lgt = gen_logtext(tier, seed, len(cases) + len(contend) + len(tdp) + len(dbc))
+    for j, c in enumerate(lgt):
+        out[(j * 3 + seed + 1) % n]["cases"].append(c)
+    # the shipped DoIP discoverer through the real CLI takes real seconds (unanswered UDP requests): start these first
+    for j, c in enumerate(gen_cli(tier, seed, len(cases) + len(contend) + len(tdp) + len(dbc) + len(lgt))):
+        out[(j * 4 + seed + 3) % n]["cases"].insert(0, c)
     return out
 
 
@@ -347,6 +495,22 @@ def required_reach(tier: str) -> dict[str, int]:
     k = 2 if tier == "quick" else 10
     need.update({"tdprops.exercised.ecusilent": k, "tdprops.exercised.ecureset": k, "tdprops.meta_checked": k, "tdprops.run_meta_checked": k,
                  "ecu.properties_requests_answered": 5})
+    # the command disconnected and re-connected its database handler (events db_disconnected / db_reconnected seen, in that order,
+    # before the run ended) and the run_meta row of such a run was read; per command kind
+    k = 6 if tier == "quick" else 150
+    need.update({"dbcycle.exercised": k, "dbcycle.run_meta_checked": k, "dbcycle.other_writer_wrote_in_between": 2 if tier == "quick" else 50})
+    need.update({f"dbcycle.kind.{kd}": 1 if tier == "quick" else 30 for kd in KINDS})
+    # every record the harness logged through gallia's logger before the run ended was looked for in the log file (all runs with an
+    # artifacts dir), and runs whose command logged a text with / without lone surrogates before further records
+    need.update({"log.sequence_checked": 20, "log.sequence_checked_at_entry_point_end": 20,
+                 "logtext.checked.surrogates": 3 if tier == "quick" else 40, "logtext.checked.scalar-text": 4 if tier == "quick" else 60,
+                 "logtext.records_logged_after_text": 7 if tier == "quick" else 100})
+    need.update({f"logtext.class.{c}": 1 for c in TEXT_CLASSES})
+    # the shipped `discover doip` command through gallia's CLI main: runs that ended by themselves with a database / an artifacts dir
+    # to compare, and runs in which the discoverer really wrote its discovery_run row (it used the database during the run)
+    k = 3 if tier == "quick" else 12
+    need.update({"cli.discover-doip.run_meta_checked": k, "cli.discover-doip.wrote_discovery_run": 2 if tier == "quick" else 9,
+                 "cli.discover-doip.meta_checked": 2 if tier == "quick" else 12, "cli.discover-doip.log_checked_at_entry_point_end": 2 if tier == "quick" else 12})
     return need
 
 
@@ -472,9 +636,51 @@ class Injector:
         self.paths = run_paths(rundir)
         self.out = self.paths["out"]
         self.fd = os.open(self.out / "events", os.O_WRONLY | os.O_CREAT | os.O_APPEND, 0o644)
+        self.logged_fd = os.open(self.out / "logged.jsonl", os.O_WRONLY | os.O_CREAT | os.O_APPEND, 0o644)
+        self.seq = 0
 
     def event(self, name: str) -> None:
         os.write(self.fd, (name + "\n").encode())
+
+    def say(self, log: Any, text: str, what: str) -> None:
+        """log one record through gallia's logger and, once the call has returned, note what was logged"""
+        log.info(text)
+        os.write(self.logged_fd, (json.dumps({"t": text, "k": what}) + "\n").encode())
+
+    def say_seq(self, log: Any, where: str) -> None:
+        self.seq += 1
+        self.say(log, f"C15-SEQ id={self.spec.get('id', 0)} n={self.seq} {where}", "seq")
+
+    async def db_cycle(self, cmd: Any) -> None:
+        """what gallia's DoIP discoverer does with its handler, the other way round: give the database away, take it back"""
+        import asyncio
+
+        dc = self.spec["dbcycle"]
+        h = cmd.db_handler
+        try:
+            for _ in range(dc["n"]):
+                await h.disconnect()
+                self.event("db_disconnected")
+                if dc.get("other_writes"):
+                    con = sqlite3.connect(str(self.paths["db"]), timeout=10, isolation_level=None)
+                    try:
+                        now = time.time()
+                        con.execute("INSERT INTO run_meta(script, config, start_time, start_timezone, end_time, end_timezone, exit_code, path, exclude) "
+                                    "VALUES (?, '{}', ?, 'UTC', ?, 'UTC', 0, 'None', FALSE)", (OTHER_WRITER, now, now))
+                    finally:
+                        con.close()
+                    self.event("db_other_writer_wrote")
+                if dc.get("gap"):
+                    await asyncio.sleep(dc["gap"])
+                await h.connect()
+                self.event("db_reconnected")
+                # the command goes on working for a moment before anything else happens to the handler (a disconnect() that follows
+                # connect() without a single suspension in between cancels the handler's writer task before it ever ran and raises
+                # CancelledError: DBHandler usage outside this property)
+                await asyncio.sleep(max(dc.get("gap") or 0.0, 0.005))
+        except Exception as e:
+            self.event(f"db_cycle_error {type(e).__name__}")
+            raise
 
     def probe_lock(self, name: str) -> None:
         if not self.spec["lock"]:
@@ -503,15 +709,24 @@ class Injector:
 
         self.event(point)
         spec = self.spec
-        log = get_logger("gallia.verif.c15")
+        log = get_logger(LOGGER_NAME)
+        self.say_seq(log, f"at {point}")
         if point == "main" and spec["kind"] == "uds":
             resp = await cmd.ecu.ping()
             self.event(f"ecu_answered {type(resp).__name__}")
+        if spec.get("dbcycle") and spec["dbcycle"]["at"] == point and cmd.db_handler is not None:
+            await self.db_cycle(cmd)
+            self.say_seq(log, "database handler connected again")
+        if spec.get("logtext") and spec["logtext"]["at"] == point:
+            c = spec["logtext"]["class"]
+            self.say(log, f"C15-TEXT id={spec.get('id', 0)} class={c}: {TEXT_CLASSES[c]}", f"text:{c}")
+            self.event(f"logtext {c}")
+            self.say_seq(log, "after the text record")
         if spec["point"] == TDPROPS_POINT and point == "teardown_pre":
             # the fault of this run is not raised here: from now on the ECU fails, and the first code that needs an answer
             # is the properties read inside UDSScanner.teardown (the transport is still open)
             self.probe_lock("lock-at-fault")
-            log.info(marker(spec))
+            self.say(log, marker(spec), "marker")
             self.event("fault")
             ECU_CTL["mode"] = "silent" if spec["exit"] == "ecusilent" else "reset"
             self.event(f"ecu_mode {ECU_CTL['mode']}")
@@ -520,7 +735,7 @@ class Injector:
         if not fire:
             return
         self.probe_lock("lock-at-fault")
-        log.info(marker(spec))
+        self.say(log, marker(spec), "marker")
         self.event("fault")
         e = spec["exit"]
         if spec.get("contend") and e != "sigint":
@@ -656,6 +871,54 @@ def observe_entry_point_end(cmd: Any, out: Path) -> None:
             pass
 
 
+def cli_argv(spec: dict[str, Any], rundir: Path) -> list[str]:
+    p = run_paths(rundir)
+    argv = ["gallia", "discover", "doip"]
+    if spec["art"]:
+        argv += ["--artifacts-base", str(p["art"])]
+    if spec["db"]:
+        argv += ["--db", str(p["db"])]
+    if spec["lock"]:
+        argv += ["--lock-file", str(p["lock"])]
+    t = CLI_TARGETS[spec["cli"]["target"]]
+    if t is not None:
+        argv += ["--target", t]
+    return argv
+
+
+def child_cli(spec: dict[str, Any], rundir: Path) -> None:
+    """gallia's own command line entry (gallia.cli.gallia.main: parse, setup_logging, sys.exit(asyncio.run(entry_point())));
+    the SystemExit it ends with is caught only to look at what the command left behind before the interpreter's atexit hooks run."""
+    import traceback
+    import types
+
+    paths = run_paths(rundir)
+    inj = Injector(spec, rundir)
+    sys.argv = cli_argv(spec, rundir)
+    (paths["out"] / "started").write_text(json.dumps(sys.argv))
+    rc: Any = None
+    try:
+        try:
+            from gallia.cli.gallia import main
+
+            main()
+            rc = 0
+        except SystemExit as e:
+            rc = e.code if e.code is not None else 0
+        finally:
+            runs = sorted(paths["art"].glob("*/run-*")) if paths["art"].exists() else []
+            observe_entry_point_end(types.SimpleNamespace(log_file_handlers=[], artifacts_dir=runs[0] if len(runs) == 1 else None), paths["out"])
+        (paths["out"] / "returned").write_text(json.dumps(rc if isinstance(rc, int) else repr(rc)))
+    except BaseException as e:
+        frames = traceback.extract_tb(e.__traceback__)
+        gl = [f for f in frames if "/gallia/" in f.filename]
+        (paths["out"] / "escaped.json").write_text(json.dumps({"type": type(e).__name__, "text": repr(e)[:300], "func": gl[-1].name if gl else None, "hook_variant": None}))
+        raise
+    finally:
+        inj.probe_lock("lock-after-entry-point")
+    sys.exit(rc)
+
+
 def child_main(specfile: str) -> None:
     from vf import runner
 
@@ -669,6 +932,13 @@ def child_main(specfile: str) -> None:
 
     rundir = Path(specfile).resolve().parent
     spec = json.loads(Path(specfile).read_text())
+    if spec.get("cli"):
+        import faulthandler
+
+        stacks = open(run_paths(rundir)["out"] / "stacks", "w")  # noqa: SIM115
+        faulthandler.dump_traceback_later(float(os.environ.get("C15_DUMP_AFTER", CHILD_TIMEOUT - STACK_DUMP_BEFORE_KILL)), file=stacks, exit=False)
+        child_cli(spec, rundir)
+        return
     paths = run_paths(rundir)
     import faulthandler
 
@@ -756,6 +1026,7 @@ def analyze_log(lf: Path, spec: dict[str, Any]) -> dict[str, Any]:
         n = 0
         found = False
         hook_reports: list[str] = []
+        own: list[str] = []  # data of every record of the harness' logger, in file order
         mk = marker(spec)
         with PenlogReader(lf) as r:
             total = len(r)
@@ -765,7 +1036,9 @@ def analyze_log(lf: Path, spec: dict[str, Any]) -> dict[str, Any]:
                     found = True
                 if rec.priority <= 4 and "hook" in rec.data:
                     hook_reports.append(rec.data[:200])
-        log.update({"records": n, "lines": total, "marker": found, "hook_reports": hook_reports})
+                if rec.module == LOGGER_NAME:
+                    own.append(json.dumps(rec.data))  # ASCII form (lone surrogates escaped), injective
+        log.update({"records": n, "lines": total, "marker": found, "hook_reports": hook_reports, "own": own})
     except Exception as e:  # noqa: BLE001
         log["read_error"] = f"{type(e).__name__}: {e}"[:300]
     return log
@@ -890,6 +1163,13 @@ def execute(spec: dict[str, Any], rundir: Path, timeout: float = CHILD_TIMEOUT) 
     obs["stacks"] = (_read(out / "stacks") or "")[-6000:] if obs["watchdog"] else None
     obs["events"] = (_read(out / "events") or "").split("\n")[:-1]
     obs["returned"] = json.loads(_read(out / "returned") or "null")
+    obs["logged"] = []  # what the command handed to gallia's logger, in order: (ASCII form of the text, kind, has lone surrogates)
+    for ln in (_read(out / "logged.jsonl") or "").splitlines():
+        try:
+            d = json.loads(ln)
+            obs["logged"].append([json.dumps(d["t"]), d["k"], any(0xD800 <= ord(ch) <= 0xDFFF for ch in d["t"])])
+        except (ValueError, KeyError):
+            pass
     obs["escaped"] = json.loads(_read(out / "escaped.json") or "null")
     obs["lock_at_fault"] = (_read(out / "lock-at-fault") or "").strip() or None
     obs["lock_after_entry_point"] = (_read(out / "lock-after-entry-point") or "").strip() or None
@@ -958,6 +1238,8 @@ def execute(spec: dict[str, Any], rundir: Path, timeout: float = CHILD_TIMEOUT) 
                 allrows = [dict(zip(cols, row)) for row in cur.fetchall()]
                 obs["run_meta"] = [r for r in allrows if r["script"] != OTHER_WRITER]
                 obs["run_meta_other_writer_rows"] = len(allrows) - len(obs["run_meta"])
+                if spec.get("cli"):
+                    obs["discovery_run"] = [list(r) for r in con.execute("SELECT id, protocol, meta FROM discovery_run").fetchall()]
             finally:
                 con.close()
         except sqlite3.Error as e:
@@ -1049,6 +1331,21 @@ def judge(spec: dict[str, Any], obs: dict[str, Any], rundir: Path, reach: Any = 
             hit("contend.finished_only_after_release" if c.get("child_exited_while_locked_after") is None else "contend.finished_while_locked")
 
     hit("fault.point_reached", 1 if "fault" in events else 0)
+    # ---- the command gave its database handler away and took it back: did that really happen (and complete) in this run?
+    dbcycled = False
+    if spec.get("dbcycle"):
+        if any(e.startswith("db_cycle_error") for e in events):
+            # disconnect()/connect() themselves raised: whatever follows is the consequence of that exception, not of a run that
+            # reconnected. Not judged; the reach counters below keep such runs from counting as exercised.
+            hit("dbcycle.cycle_failed")
+            return []
+        n_dis, n_re = events.count("db_disconnected"), events.count("db_reconnected")
+        dbcycled = n_re >= 1 and n_dis == n_re == spec["dbcycle"]["n"] and events.index("db_disconnected") < events.index("db_reconnected")
+        hit("dbcycle.exercised" if dbcycled else "dbcycle.not_exercised")
+        if dbcycled:
+            hit(f"dbcycle.kind.{kind}")
+            hit(f"dbcycle.at.{spec['dbcycle']['at']}")
+            hit("dbcycle.other_writer_wrote_in_between", 1 if "db_other_writer_wrote" in events else 0)
     # ---- ECU failing for the properties read of UDSScanner.teardown: did a properties request really meet the failing ECU?
     tdprops_hit = False
     if tdprops:
@@ -1147,6 +1444,48 @@ def judge(spec: dict[str, Any], obs: dict[str, Any], rundir: Path, reach: Any = 
         except Exception as e:  # noqa: BLE001
             v.append((f"meta/config-not-recreatable/{type(e).__name__}", f"CONFIG_TYPE(**META.config) fails: {e!r:.300}"))
 
+    # ---- every record the command logged before the run ended must be in the log ("fully readable"): the harness noted each text
+    # after gallia's logger had taken it. A text that is not a sequence of Unicode scalar values (lone surrogates) is itself not
+    # looked for; the records before and after it are.
+    logged = obs.get("logged") or []
+    lt = spec.get("logtext")
+    lt_logged = lt is not None and f"logtext {lt['class']}" in events
+    seqdisc = f"text-{lt['class']}" if lt_logged else cond
+
+    def sequence(lgx: dict[str, Any], when: str, counter: str) -> list[tuple[str, str]]:
+        out: list[tuple[str, str]] = []
+        own = lgx.get("own")
+        if own is None or not logged:
+            return out
+        hit(counter)
+        wanted = [t for t, k, sur in logged if not sur]
+        missing = [t for t in wanted if t not in own]
+        if lt_logged:
+            after = [k for _, k, _ in logged]
+            after = after[after.index(f"text:{lt['class']}") + 1:]
+            if counter == "log.sequence_checked":  # once per run
+                hit("logtext.checked.surrogates" if lt["class"] in TEXT_SURROGATE else "logtext.checked.scalar-text")
+                hit(f"logtext.class.{lt['class']}")
+                hit("logtext.records_logged_after_text", 1 if after else 0)
+        if missing:
+            textrec = [t for t, k, _ in logged if k.startswith("text:")]
+            only_text = lt_logged and all(t in textrec for t in missing)
+            first = missing[0]
+            if only_text:
+                out.append((f"log/text-record-differs/{lt['class']}", f"the record of text class {lt['class']} the command logged is not in the log file with the text it was logged with ({when}); "
+                            f"logged {first[:160]}, records of that logger in the file: {[o[:80] for o in own if 'C15-TEXT' in o][:2]}"))
+            else:
+                pos = [t for t, _, _ in logged].index(first)
+                before = [k for _, k, _ in logged[:pos]]
+                out.append((f"log/records-missing/{seqdisc}", f"{len(missing)} of the {len(wanted)} records the command logged before the run ended are not in the log file ({when}); "
+                            f"first missing: {first[:120]} (record {pos + 1} of {len(logged)} logged"
+                            + (f", logged after the record of text class {lt['class']}" if lt_logged and f"text:{lt['class']}" in before else "") + f"); the file holds {len(own)} record(s) of that logger"))
+        else:
+            it = iter(own)
+            if not all(t in it for t in wanted):
+                out.append((f"log/records-out-of-order/{seqdisc}", f"the records the command logged are all in the log file but not in the order they were logged ({when})"))
+        return out
+
     # ---- log file
     if spec["art"] and len(obs["artifact_dirs"]) == 1:
         lg = obs["log"]
@@ -1166,6 +1505,7 @@ def judge(spec: dict[str, Any], obs: dict[str, Any], rundir: Path, reach: Any = 
                         hit("log.marker_found")
                     else:
                         v.append((f"log/marker-missing/{cond}", "the last record logged before the fault is not in the log file"))
+                v.extend(sequence(lg, "file after the process ended", "log.sequence_checked"))
     # ---- log file as the command left it: the copy the child took when entry_point() returned or raised. (After the process
     # ended the file can look fine only because the interpreter's logging.shutdown() closed a handler the command left open.)
     epe = obs.get("ep_end")
@@ -1203,6 +1543,8 @@ def judge(spec: dict[str, Any], obs: dict[str, Any], rundir: Path, reach: Any = 
                         hit("log.marker_found_at_entry_point_end")
                     else:
                         add(f"log/marker-missing/{cond}", f"the last record logged before the fault is not in the log file when entry_point() has {how}")
+                for key, what in sequence(ls, f"file as it is when entry_point() has {how}", "log.sequence_checked_at_entry_point_end"):
+                    add(key, what)
         if not not_closed and (epe.get("log_file_handlers_left") or epe.get("queue_handlers_on_gallia")):
             add(f"log/handler-left-attached/{cond}", f"entry_point() has {how} with {epe.get('log_file_handlers_left')} log file handler(s) in log_file_handlers and "
                 f"{epe.get('queue_handlers_on_gallia')} queue handler(s) still attached to the 'gallia' logger (a later run in the same process would write into this run's log)")
@@ -1218,16 +1560,22 @@ def judge(spec: dict[str, Any], obs: dict[str, Any], rundir: Path, reach: Any = 
             hit("run_meta.rows_read")
             if tdprops_hit:
                 hit("tdprops.run_meta_checked")
+            if dbcycled:
+                hit("dbcycle.run_meta_checked")
             row = rows[0]
             reached = "teardown_super_done" in events and kind in ("scanner", "uds")
             where = "scanner-teardown" if reached else ("scanner-teardown-entered" if "teardown_super_enter" in events and kind != "script" else "other")
+            if dbcycled:
+                where = DBCYCLE_WHERE
             if row["end_time"] is None and contended:
                 c = obs["contend"]
                 v.append((CONTEND_KEY, f"run_meta.end_time is NULL (exit_code {row['exit_code']!r}) after the process ended with {rc}: another writer held the "
                           f"shared database's write lock for {c['held']} s ({c['overlap']} s of it after the command was told to finish)"
                           + ("" if c.get("child_exited_while_locked_after") is None else f" and the process ended {c['child_exited_while_locked_after']} s into it, without waiting for the lock")))
             elif row["end_time"] is None:
-                v.append((f"run_meta/end_time-null/{where}", f"run_meta.end_time is NULL (exit_code {row['exit_code']!r}) after the process ended with {rc}"))
+                v.append((f"run_meta/end_time-null/{where}", f"run_meta.end_time is NULL (exit_code {row['exit_code']!r}) after the process ended with {rc}"
+                          + (f"; the command had disconnected its database handler and connected it again {spec['dbcycle']['n']} time(s) at {spec['dbcycle']['at']} "
+                             "(the connect/disconnect cycle of gallia's DoIP discoverer) and was connected when the run ended" if dbcycled else "")))
             else:
                 if row["exit_code"] != eff:
                     v.append((f"run_meta/exit-code-differs/{cond}", f"run_meta.exit_code={row['exit_code']!r}, the process ended with {rc}"))
@@ -1257,6 +1605,126 @@ def judge(spec: dict[str, Any], obs: dict[str, Any], rundir: Path, reach: Any = 
     return v
 
 
+def judge_cli(spec: dict[str, Any], obs: dict[str, Any], rundir: Path, reach: Any = None) -> list[tuple[str, str]]:
+    """The artefact oracle for a shipped command run through gallia's CLI. What the exit code *should* be is not known to
+    the harness (the command decides that); that every record of the run carries the code the process ended with is."""
+    def hit(name: str, n: int = 1) -> None:
+        if reach is not None:
+            reach(f"cli.{CLI_KIND}.{name}", n)
+
+    v: list[tuple[str, str]] = []
+    rc = obs["rc"]
+    esc = obs["escaped"]
+    form = spec["cli"]["target"]
+    if esc is not None:
+        return [(f"entry_point/escaped-exception/{esc['type']}/{esc.get('func')}", f"{esc['type']} leaves gallia's CLI main for `{' '.join(cli_argv(spec, rundir)[1:3])}` "
+                 f"(innermost gallia frame {esc.get('func')}): {esc.get('text')}")]
+    if not obs["started"]:
+        return [("harness/child-did-not-start", f"child rc={rc}: {obs['stderr'][-300:]}")]
+    if not isinstance(obs["returned"], int) or rc != obs["returned"] or not 0 <= rc <= 255:
+        v.append((f"exit/code-differs/{CLI_KIND}", f"CLI main ended with SystemExit({obs['returned']!r}), the process with {rc}"))
+    # ---- META.json
+    meta = None
+    if spec["art"]:
+        if len(obs["artifact_dirs"]) != 1:
+            v.append((f"meta/artifacts-dir-count/{CLI_KIND}", f"{len(obs['artifact_dirs'])} run directories below the artifacts base"))
+        elif obs["meta_raw"] is None:
+            v.append((f"meta/missing/{CLI_KIND}", "artifacts dir configured but META.json was not written"))
+        else:
+            try:
+                meta = json.loads(obs["meta_raw"])
+                assert isinstance(meta, dict) and {"command", "start_time", "end_time", "exit_code", "config"} <= set(meta)
+            except (ValueError, AssertionError):
+                v.append(("meta/unparsable", f"META.json content: {obs['meta_raw'][:200]!r}"))
+                meta = None
+    elif obs["artifact_dirs"]:
+        v.append(("meta/artifacts-without-config", "no artifacts dir configured but one was created"))
+    paths = run_paths(rundir)
+    given = {"target": CLI_TARGETS[form], "db": str(paths["db"]) if spec["db"] else None, "artifacts_base": str(paths["art"]) if spec["art"] else None,
+             "lock_file": str(paths["lock"]) if spec["lock"] else None}
+
+    def config_ok(command: str, config: dict[str, Any], where: str) -> None:
+        try:
+            cls, cfg = recreate_config(command, config)
+            got = json.loads(cfg.model_dump_json())
+            diff = {k: (got.get(k), w) for k, w in given.items() if got.get(k) != w}
+            if f"{cls.__module__}.{cls.__name__}" != CLI_COMMAND or diff:
+                v.append((f"{where}/config-differs", f"config re-created from {where} is a {cls.__name__} with (got, given on the command line): {diff}"))
+        except Exception as e:  # noqa: BLE001
+            v.append((f"{where}/config-not-recreatable/{type(e).__name__}", f"CONFIG_TYPE(**config) fails: {e!r:.300}"))
+
+    if meta is not None:
+        hit("meta_checked")
+        if meta["exit_code"] != rc:
+            v.append((f"meta/exit-code-differs/{CLI_KIND}", f"META.json says exit_code={meta['exit_code']!r}, the process ended with {rc}"))
+        try:
+            if not datetime.fromisoformat(meta["start_time"]) <= datetime.fromisoformat(meta["end_time"]):
+                v.append(("meta/times-invalid/start-after-end", f"start {meta['start_time']} > end {meta['end_time']}"))
+        except (ValueError, TypeError):
+            v.append(("meta/times-invalid/not-iso", f"start={meta['start_time']!r} end={meta['end_time']!r}"))
+        config_ok(meta["command"], meta["config"], "meta")
+    # ---- log file: after the process ended and as the command left it
+    if spec["art"] and len(obs["artifact_dirs"]) == 1:
+        how = "raised SystemExit"
+        for lg, when, counter in ((obs["log"], "after the process ended", "log_checked"), (obs["log_at_ep_end"], f"when CLI main has {how}", "log_checked_at_entry_point_end")):
+            have = {k for k, _ in v}
+            if lg is None:
+                if when.startswith("after") or obs.get("ep_end") is not None:
+                    key = f"log/missing/{CLI_KIND}"
+                    if key not in have:
+                        v.append((key, f"artifacts dir configured but log.json.zst does not exist {when}"))
+                continue
+            hit(counter)
+            found = []
+            if not lg.get("closed"):
+                found.append((f"log/not-closed/{CLI_KIND}", f"log.json.zst is not a complete zstd stream {when} ({lg.get('size')} bytes on disk)"))
+            elif "read_error" in lg:
+                found.append((f"log/unreadable/{CLI_KIND}", f"PenlogReader fails on the log file {when}: {lg['read_error']}"))
+            elif lg["records"] != lg["lines"] or lg["records"] == 0:
+                found.append(("log/record-count", f"{lg['records']} records decoded from {lg['lines']} lines ({when})"))
+            v.extend(f for f in found if f[0] not in have)
+        epe = obs.get("ep_end")
+        if epe is not None and epe.get("queue_handlers_on_gallia") and f"log/not-closed/{CLI_KIND}" not in {k for k, _ in v}:
+            v.append((f"log/handler-left-attached/{CLI_KIND}", f"CLI main has ended with {epe.get('queue_handlers_on_gallia')} queue handler(s) still attached to the 'gallia' logger"))
+    # ---- database
+    if spec["db"]:
+        rows = obs["run_meta"]
+        if rows is None or len(rows) != 1:
+            v.append((f"run_meta/row-count/{CLI_KIND}", f"run_meta rows: {None if rows is None else len(rows)} ({obs.get('run_meta_error', '')})"))
+        else:
+            hit("run_meta_checked")
+            row = rows[0]
+            disc = obs.get("discovery_run") or []
+            wrote = any(r[2] == row["id"] for r in disc)
+            hit("wrote_discovery_run", 1 if wrote else 0)
+            if form != "foreign-scheme" and not wrote:
+                v.append((f"discovery_run/missing/{CLI_KIND}", f"the discovery went on to probe {CLI_DEAD_PEER} but the database has no discovery_run row for run {row['id']} (rows: {disc})"))
+            if row["script"] != CLI_COMMAND:
+                v.append((f"run_meta/script-differs/{CLI_KIND}", f"run_meta.script={row['script']!r}"))
+            if row["end_time"] is None:
+                v.append((f"run_meta/end_time-null/{CLI_KIND}", f"run_meta.end_time is NULL (exit_code {row['exit_code']!r}) after `gallia discover doip --db ... --target {CLI_TARGETS[form]}` ended with {rc}"
+                          + ("; the discoverer had written its discovery_run row during the run" if wrote else "")))
+            else:
+                if row["exit_code"] != rc:
+                    v.append((f"run_meta/exit-code-differs/{CLI_KIND}", f"run_meta.exit_code={row['exit_code']!r}, the process ended with {rc}"))
+                if not row["start_time"] <= row["end_time"]:
+                    v.append(("run_meta/times-invalid", f"start {row['start_time']} > end {row['end_time']}"))
+            try:
+                config_ok(row["script"], json.loads(row["config"]), "run_meta")
+            except ValueError:
+                v.append(("run_meta/config-not-recreatable/ValueError", f"run_meta.config is not JSON: {row['config'][:200]!r}"))
+    elif obs["run_meta"]:
+        v.append(("run_meta/db-without-config", "no database configured but one was written"))
+    # ---- lock
+    if spec["lock"]:
+        hit("lock_probed_after_exit")
+        if obs.get("lock_after_exit") != "free":
+            v.append(("lock/held-after-exit", f"lock file state after the process ended: {obs.get('lock_after_exit')}"))
+        if obs["lock_after_entry_point"] == "held":
+            v.append(("lock/held-after-return", "CLI main has ended but the lock file is still locked"))
+    return v
+
+
 # =================================================================================================
 # shard
 # =================================================================================================
@@ -1267,7 +1735,7 @@ def hang_blame(obs: dict[str, Any]) -> str:
     if not obs.get("started") or "most recent call first" not in st:
         return "unknown"
     for ln in st.splitlines():
-        if "vf/checks/c15.py" in ln and not any(f" in {fn}" in ln for fn in ("child_main", "<module>", "body", "serve")):
+        if "vf/checks/c15.py" in ln and not any(f" in {fn}" in ln for fn in ("child_main", "child_cli", "<module>", "body", "serve")):
             return "harness"
     return "command"
 
@@ -1277,6 +1745,10 @@ def summarize(obs: dict[str, Any]) -> dict[str, Any]:
                                  "lock_after_entry_point", "lock_after_exit", "artifact_dirs", "run_meta", "log", "hook_pre_lock", "hook_post_lock", "contend", "run_meta_other_writer_rows",
                                  "ep_end", "ep_end_error", "log_at_ep_end", "ecu_answers", "ecu_rdbi_answers", "ecu_faulted")}
     s["meta"] = (obs.get("meta_raw") or "")[:600] or None
+    s["logged"] = [[t[:120], k, sur] for t, k, sur in (obs.get("logged") or [])]
+    for f in ("log", "log_at_ep_end"):
+        if isinstance(s.get(f), dict) and "own" in s[f]:
+            s[f] = {**s[f], "own": [o[:120] for o in s[f]["own"]]}
     s["stderr_tail"] = obs.get("stderr", "")[-1500:]
     for hv in ("pre", "post"):
         env = obs.get(f"hook_{hv}_env")
@@ -1288,7 +1760,10 @@ def summarize(obs: dict[str, Any]) -> dict[str, Any]:
 
 def case_ident(spec: dict[str, Any]) -> tuple[Any, ...]:
     return (tuple(spec[f] for f in FACTORS) + (("contend", spec["contend"]) if spec.get("contend") else ())
-            + (("uds", spec["uds_timeout"], spec.get("uds_retries")) if spec.get("uds_timeout") is not None else ()))
+            + (("uds", spec["uds_timeout"], spec.get("uds_retries")) if spec.get("uds_timeout") is not None else ())
+            + (("dbcycle",) + tuple(sorted(spec["dbcycle"].items())) if spec.get("dbcycle") else ())
+            + (("logtext",) + tuple(sorted(spec["logtext"].items())) if spec.get("logtext") else ())
+            + (("cli", spec["cli"]["target"]) if spec.get("cli") else ()))
 
 
 def process_case(ctx: Any, spec: dict[str, Any], base: Path, lock: Any) -> dict[str, Any] | None:
@@ -1331,6 +1806,20 @@ def process_case(ctx: Any, spec: dict[str, Any], base: Path, lock: Any) -> dict[
             ctx.sample({"case": {f: spec[f] for f in FACTORS}, "rc": "watchdog", "events": obs["events"], "keys": [hang[0]]})
             shutil.rmtree(rundir, ignore_errors=True)
             return None
+        if spec.get("cli"):
+            found = judge_cli(spec, obs, rundir, ctx.reach)
+            rm = obs["run_meta"][0] if obs["run_meta"] else None
+            rmv = None if rm is None else {"end_time_null": rm["end_time"] is None, "exit_code": rm["exit_code"]}
+            ctx.reach(f"cli.{CLI_KIND}.outcome.rc={obs['rc']}")
+            ctx.trace((CLI_KIND, spec["cli"]["target"], obs["rc"], json.dumps(rmv), len(obs.get("discovery_run") or []), tuple(sorted(k for k, _ in found))))
+            ctx.sample({"case": {"kind": CLI_KIND, "argv": cli_argv(spec, Path("<rundir>")), **{f: spec[f] for f in ("art", "db", "lock")}}, "rc": obs["rc"], "run_meta": rmv,
+                        "discovery_run": obs.get("discovery_run"), "keys": sorted(k for k, _ in found)})
+            summ = summarize(obs)
+            summ["discovery_run"] = obs.get("discovery_run")
+            for key, what in found:
+                ctx.violation(key, what, {"spec": spec, "all_keys_of_this_run": sorted(k for k, _ in found), "obs": summ})
+            shutil.rmtree(rundir, ignore_errors=True)
+            return None
         ctx.reach(f"exit.{spec['exit']}")
         ctx.reach(f"kind.{spec['kind']}")
         if spec["point"] != "none":
@@ -1359,7 +1848,7 @@ def process_case(ctx: Any, spec: dict[str, Any], base: Path, lock: Any) -> dict[
                    None if rm is None else (rm["end_time"] is None, rm["exit_code"]), obs["hook_pre_env"] is not None,
                    obs["hook_post_env"] is not None, tuple(sorted(k for k, _ in found))))
         ctx.reach(f"outcome.rc={obs['rc']}")
-        ctx.sample({"case": {f: spec[f] for f in FACTORS + (["contend"] if spec.get("contend") else [])}, "rc": obs["rc"], "meta_exit_code": meta_code, "events": obs["events"],
+        ctx.sample({"case": {f: spec[f] for f in FACTORS + [x for x in ("contend", "dbcycle", "logtext") if spec.get(x)]}, "rc": obs["rc"], "meta_exit_code": meta_code, "events": obs["events"],
                     "run_meta": None if rm is None else {"end_time_null": rm["end_time"] is None, "exit_code": rm["exit_code"]},
                     "keys": sorted(k for k, _ in found)})
         for key, what in found:
